@@ -74,7 +74,9 @@ def plan(tier, seed):
         for P in range(1, aP + 1):
             jobs.append(("asm", P, U, tuple((F.numerator, F.denominator) for F in Fs), 0))
     jobs.append(("usage", 3, 3, seed, 0))
-    jobs.sort(key=lambda j: -(j[1] ** 3) * j[2] ** 2)
+    for P in ((20, 21, 22, 30, 36, 48, 67, 100) if tier == "quick" else (20, 21, 22, 24, 27, 30, 33, 36, 40, 48, 60, 67, 80, 100, 120)):
+        jobs.append(("highploidy", P, 4, seed, 0))
+    jobs.sort(key=lambda j: -(min(j[1], 9) ** 3) * j[2] ** 2)
     return jobs
 
 
@@ -99,6 +101,8 @@ def run_job(job):
         return job_call(job)
     if kind == "usage":
         return job_usage(job)
+    if kind == "highploidy":
+        return job_highploidy(job)
     return job_asm(job)
 
 
@@ -190,6 +194,69 @@ def job_call(job):
                 "ln_equivalent_permutations %.15g != log multinomial coefficient %.15g" % (got, want),
                 {"kind": "job", "job": job},
             )
+    return r
+
+
+def job_highploidy(job):
+    """pooled samples reach ploidies at which the multinomial coefficient exceeds 2^63 (21 distinct haplotypes, 9:9:9:9 at ploidy 36, 34:33 at 67): the
+    permutation count, the F = 0 and F > 0 genotype priors must stay the exact (Dirichlet-)multinomial and sum to one"""
+    from mchap.calling.prior import log_genotype_prior
+    from mchap.assemble.prior import log_genotype_prior as asm_prior
+    from mchap.jitutils import ln_equivalent_permutations
+
+    _, P, K, seed, _ = job
+    r = Result()
+    payload = {"kind": "job", "job": job}
+    lf = [math.lgamma(i + 1) for i in range(P + 1)]
+    # every dosage vector with <= K distinct alleles (sorted: the functions see first-instance dosages padded with zeros), plus all-distinct
+    vecs = set()
+    for k in range(1, K + 1):
+        for comp in compositions(P - k, k):
+            vecs.add(tuple(sorted((c + 1 for c in comp), reverse=True)))
+    vecs.add((1,) * P)
+    vecs.add((2,) * (P // 2) + (1,) * (P % 2))
+    for dos in sorted(vecs):
+        arr = np.zeros(P, np.int64)
+        arr[: len(dos)] = dos
+        want = lf[P] - sum(lf[d] for d in dos)
+        for dt in (np.int64, np.int8):
+            got = float(ln_equivalent_permutations(arr.astype(dt)))
+            r.evaluations += 1
+            r.nontrivial += 1
+            if not (abs(got - want) <= 1e-9 * max(1.0, abs(want))):
+                r.violation("ln-perms-high|P=%d|dtype=%s" % (P, np.dtype(dt).name), "dosage %r: ln_equivalent_permutations %.12g, log multinomial coefficient %.12g" % (dos, got, want), payload)
+        r.outcome((P, dos))
+    # priors over K alleles: sum to one and equal the reference for F = 0 and F = 0.1 (skewed frequencies incl. the assemble flat prior)
+    H = 3 if P > 40 else 4
+    fq = [0.4, 0.3, 0.2, 0.1][:H]
+    fq = [x / sum(fq) for x in fq]
+    for F in (0.0, 0.1):
+        for farr, fl in ((None, [1.0 / H] * H), (np.array(fq), fq)):
+            tot = 0.0
+            lg = [math.log(x) for x in fl]
+            s_ = (1 - F) / F if F else 0.0
+            for comp in compositions(P, H):
+                g = np.array([a for a, c in enumerate(comp) for _ in range(c)], np.int64)
+                lp = float(log_genotype_prior(g, H, F, farr))
+                if F == 0:
+                    want = lf[P] - sum(lf[c] for c in comp) + sum(c * lg[a] for a, c in enumerate(comp))
+                else:
+                    want = lf[P] - sum(lf[c] for c in comp) + sum(math.lgamma(fl[a] * s_ + c) - math.lgamma(fl[a] * s_) for a, c in enumerate(comp)) \
+                        - (math.lgamma(s_ + P) - math.lgamma(s_))
+                r.evaluations += 1
+                r.nontrivial += 1
+                if not (abs(lp - want) <= 1e-8 * max(1.0, abs(want))):
+                    r.violation("prior-high|P=%d|H=%d|F=%g|freq=%s" % (P, H, F, "flat" if farr is None else "skew"), "allele counts %r: log prior %.12g, reference %.12g" % (comp, lp, want), payload)
+                tot += math.exp(lp)
+                if farr is None and sum(1 for c in comp if c) == H and comp == tuple(sorted(comp, reverse=True)):
+                    d = np.zeros(P, np.int8)
+                    d[:H] = comp
+                    la = float(asm_prior(d, math.log(H), F))
+                    if not (abs(la - lp) <= 1e-8 * max(1.0, abs(lp))):
+                        r.violation("asm-prior-high|P=%d|F=%g" % (P, F), "dosage %r: assemble prior %.12g, calling prior with flat frequencies %.12g" % (comp, la, lp), payload)
+            if not (abs(tot - 1.0) <= 1e-7):
+                r.violation("prior-sum-high|P=%d|H=%d|F=%g|freq=%s" % (P, H, F, "flat" if farr is None else "skew"), "prior sums to %.12g over all genotypes" % tot, payload)
+    r.sample({"high_ploidy": P, "dosage_vectors": len(vecs), "alleles": H}, cap=1)
     return r
 
 
